@@ -2,6 +2,7 @@ package scion
 
 import (
 	"context"
+	"errors"
 	"os"
 	"sync/atomic"
 	"time"
@@ -43,6 +44,8 @@ func newFetcherMetrics() *fetcherMetrics {
 var (
 	fetcherMtrcs atomic.Pointer[fetcherMetrics]
 	useMockKeys  bool
+
+	errNoDaemonConnector = errors.New("no SCION daemon connector available")
 )
 
 func init() {
@@ -84,6 +87,8 @@ func (f *Fetcher) FetchHostASKey(ctx context.Context, meta drkey.HostASMeta) (
 				},
 				SrcHost: meta.SrcHost,
 			}
+		} else if f.dc == nil {
+			err = errNoDaemonConnector
 		} else {
 			hak, err = FetchHostASKey(ctx, f.dc, meta)
 		}
@@ -120,6 +125,9 @@ func (f *Fetcher) FetchHostHostKey(ctx context.Context, meta drkey.HostHostMeta)
 			SrcHost: meta.SrcHost,
 			DstHost: meta.DstHost,
 		}, nil
+	}
+	if f.dc == nil {
+		return drkey.HostHostKey{}, errNoDaemonConnector
 	}
 	return FetchHostHostKey(ctx, f.dc, meta)
 }
